@@ -11,6 +11,7 @@ Three legs on the same cases (see notes/C02.md):
 """
 import base64
 import binascii
+import json
 import urllib.parse
 
 from harness.core import Result
@@ -891,6 +892,25 @@ def listener_cut_cases(rng):
                                                 ('L', [cut])], lis
 
 
+def hint_variants(rng, hint):
+    """leg 3: around a case on which model and implementation disagree, keep kind, listeners, batching and
+    triggers and re-draw the header / trailer blocks over every abstract class -- the disagreement shows WHERE
+    the code changed, one of the neighbours usually shows the property failing"""
+    if not isinstance(hint, dict) or 'batches' not in hint:
+        return
+    csub = hint.get('csub', 'proto')
+    for h in all_hinfo(['MdOk']):
+        for t in all_tinfo(['MdOk']):
+            c = json.loads(json.dumps(hint))
+            for b in c['batches']:
+                for e in b['events']:
+                    if e[0] == 'H':
+                        e[1] = concretize_h(rng, *h, csub=csub)
+                    elif e[0] == 'T':
+                        e[1] = concretize_t(rng, *t)
+            yield c
+
+
 def run(ctx):
     res = Result()
     rng = ctx.rng
@@ -919,6 +939,9 @@ def run(ctx):
                                 if c.get('op') == 'hdr'])
     if any(c.get('op') == 'int' for c in corpus):
         check_ints(ctx, res, [c['s'] for c in corpus if c.get('op') == 'int'])
+    hints = [h for h in (getattr(ctx, 'hints', None) or []) if isinstance(h, dict) and 'batches' in h][:12]
+    if hints:
+        check_runs(ctx, res, [c for h in hints for c in hint_variants(rng, h)], 'hint')
     # (a) matrix
     cells = list(matrix_cases(rng, thorough))
     res.extra['matrix_cells'] = len(cells)
@@ -968,6 +991,21 @@ def run(ctx):
         ints += [chr(c) + '1' for c in cpsel] + ['1' + chr(c) for c in cpsel]
     res.extra['int_codepoints_covered'] = len(cpsel)
     check_ints(ctx, res, ints)
+    # the tie broke on call cases: search around the disagreeing cases for an input on which the PROPERTY fails
+    # (./check runs its own leg 3 only when no oracle failure at all was seen, and the known findings are some)
+    dis = [d['case'] for d in res.disagreements if isinstance(d.get('case'), dict) and 'batches' in d['case']]
+    if dis and not hints:
+        seen, picked = set(), []
+        for c in dis:
+            key = (c['variant'], tuple(c.get('prog', [])), c.get('lis', ''),
+                   tuple((str(b['trig']), tuple(e[0] for e in b['events'])) for b in c['batches']))
+            if key not in seen:
+                seen.add(key)
+                picked.append(c)
+        n0 = len(res.disagreements)
+        check_runs(ctx, res, [c for h in picked[:12] for c in hint_variants(rng, h)], 'hint')
+        res.notes.append('searched %d neighbours of %d disagreeing cases' % (96 * len(picked[:12]), len(picked[:12])))
+        del res.disagreements[n0 + 50:]
     return res
 
 
